@@ -9,9 +9,10 @@
 2. Conformance (spec -> code): TLC-evaluated directed scenarios (module ZDemoScript: seams, conflicts across the
    layers, undo, id allocation with adversarial _next_oid, push/pop, clock stalls, pack, refused calls), the
    counterexamples of 1. and seeded TLC -simulate behaviours are replayed call by call on real DemoStorage stacks
-   (base in {MappingStorage, FileStorage} x changes in {MappingStorage, FileStorage, FileStorage with blobs, the demo
-   storage's own}); after every call the outcome, the full query table and the storages below the top
-   (byte- / record-identical to the snapshot taken when they were wrapped) are compared.
+   (base in {MappingStorage, FileStorage, FileStorage with blobs} x changes in {MappingStorage, FileStorage, FileStorage
+   with blobs, the demo storage's own}); after every call the outcome, the full query table and the storages below the
+   top (byte- / record-identical to the snapshot taken when they were wrapped, blob files included) are compared.  Where
+   both layers keep blobs, oid 0 is a blob: written with storeBlob, read back with loadBlob / openCommittedBlobFile.
 3. Where TLC's `dev` / `collides` says that the transcription differs from the meaning and the real storage answers
    as the transcription does, the code has the deviation: reported with the cause as structural signature."""
 import concurrent.futures
@@ -37,7 +38,8 @@ ASSUME = ['TLC results are exhaustive only within the stated constants (2 oids, 
 # The tree under test: the deviations of the code from the property that the specification carries behind
 # constants (TRUE = as the code is).  When one is repaired in /repo the matching constant is set to False here.
 TREE = dict(dd.AS_CODE,
-            TidFromChangesOnly=False)      # repaired in /repo by b44a8d5 (tpc_begin passes a tid above both layers)
+            TidFromChangesOnly=False,      # repaired in /repo by b44a8d5 (tpc_begin passes a tid above both layers)
+            BlobStoreSkipsBaseCheck=False)   # repaired in /repo by 9bb86b1 (storeBlob makes store()'s merged-serial check)
 # still as the code is (known findings): UndoUncreates, OidProbeByLoad, PackAsCode
 if os.environ.get('ZV_C16_TREE'):        # self-test against a scratch tree with proposed repairs, e.g. "UndoUncreates=0,PackAsCode=0"
     for kv in os.environ['ZV_C16_TREE'].split(','):
@@ -288,8 +290,9 @@ def run(ctx):
     # quick: the specification-internal runs (design / transcription against the meaning) on two flavours each,
     # thorough: on every flavour; the conformance part below always covers every flavour
     big_keys = [('mapping', 'file', False)]       # thorough: two base transactions
-    design_keys = [k for k in keys if not q or k in (('mapping', 'file', False), ('mapping', 'mapping', True))]
-    code_keys = [k for k in keys if (not q and (k[2] or k in (cex_key, ('file', 'file', False))))
+    plain = [k for k in keys if len(k) == 3]       # (the keys with a blob oid have their own runs: cex-storeBlob, design-file-file-blob)
+    design_keys = [k for k in plain if not q or k in (('mapping', 'file', False), ('mapping', 'mapping', True))]
+    code_keys = [k for k in plain if (not q and (k[2] or k in (cex_key, ('file', 'file', False))))
                  or k in (('file', 'file', False), ('mapping', 'mapping', True))]
     for k in keys:
         n = model_name(k)
